@@ -34,6 +34,14 @@ static int del(void *p)
     }
     return 0;
 }
+/* Fresh blocks are filled with a pattern that changes from allocation to allocation and freed blocks are
+ * overwritten: any use of uninitialised or stale heap memory by the library then shows up as bytes that
+ * depend on the process history (C15, C07) instead of being masked by a freshly zeroed heap. */
+#include <malloc.h>
+static void scribble(void *p, size_t n)
+{
+    if (p && n) memset(p, (int)(0xA5 ^ ((verif_alloc_seq * 37) & 0x7f)), n);
+}
 static void note(void *p)
 {
     if (!p) return;
@@ -55,7 +63,7 @@ void *verif_malloc(size_t n)
 {
     void *p;
     if (should_fail()) return NULL;
-    p = malloc(n ? n : 1); note(p); return p;
+    p = malloc(n ? n : 1); scribble(p, n); note(p); return p;
 }
 void *verif_calloc(size_t a, size_t b)
 {
@@ -68,7 +76,7 @@ int verif_posix_memalign(void **pp, size_t al, size_t n)
     int r;
     if (should_fail()) return 12;
     r = posix_memalign(pp, al, n ? n : 1);
-    if (!r) note(*pp);
+    if (!r) { scribble(*pp, n); note(*pp); }
     return r;
 }
 char *verif_strdup(const char *s)
@@ -85,7 +93,7 @@ void verif_free(void *p)
     known = del(p);
     if (known) { verif_frees++; verif_live--; } else verif_foreign_free++;
     pthread_mutex_unlock(&mu);
-    if (known) free(p);
+    if (known) { memset(p, 0xDD, malloc_usable_size(p)); free(p); }
     else fprintf(stderr, "LEDGER: free of a pointer the library does not own (%p)\n", p);
 }
 
